@@ -129,13 +129,21 @@ def probe(chk: Check) -> None:
                         continue
                     frames, got, flag = out[1]
                     mis = [e for e in it.events if e["kind"] == "misaligned"]
-                    pulls = [e for e in it.events if e["kind"] == "io" and e["method"] in ("parse_length_prefixed", "parse")]
-                    used = {e["method"] for e in pulls}
+                    # how the frames were obtained: protobuf's length-prefixed reader, pyjelly's own frame-by-frame reader,
+                    # or one parse of the whole input
+                    used = set()
+                    for e in it.events:
+                        if e["kind"] == "io" and e["method"] == "parse_length_prefixed":
+                            used.add("length-prefixed frames")
+                        elif e["kind"] == "parse_input":
+                            used.add("length-prefixed frames")
+                        elif e["kind"] == "frame_pull" and e.get("whole"):
+                            used.add("whole input as one frame")
                     if mis:
                         chk.fail(rule, inst, construct + (":seekable-branch" if seekable else ":non-seekable-branch"), f"frames are parsed from offset {mis[0]['offset']} instead of 0: the probe consumed header bytes")
                     elif flag != delim:
                         chk.fail(rule, inst, construct, f"options.params.delimited={flag} for a {'delimited' if delim else 'non-delimited'} input")
-                    elif used != ({"parse_length_prefixed"} if delim else {"parse"}):
+                    elif used != ({"length-prefixed frames"} if delim else {"whole input as one frame"}):
                         chk.fail(rule, inst, construct, f"{'delimited' if delim else 'non-delimited'} input is read with {sorted(used)}")
                     elif len(got) != len(frames) or any(a is not b for a, b in zip(got, frames)):
                         chk.fail(rule, inst, construct, f"frames returned {len(got)} != frames in the input {len(frames)}")
